@@ -132,6 +132,11 @@ LAYOUTS = {
     # two development branches on the same commit
     'E2': dict(branches=[('development/4.3', None),
                          ('development/5.1', '=development/4.3')], tags=[]),
+    # development/5.2 freshly cut from development/5.1: its integration
+    # branch is a fast-forward of the previous *integration* branch
+    'F3': dict(branches=[('development/4.3', None),
+                         ('development/5.1', 'development/4.3'),
+                         ('development/5.2', '=development/5.1')], tags=[]),
     'E3': dict(branches=[('development/4.3', None),
                          ('development/5.1', '=development/4.3'),
                          ('development/10.0', '=development/4.3')], tags=[]),
